@@ -104,60 +104,68 @@ theorem C11_u64_foreign (s : Bytes) (h : ∃ b ∈ s, Foreign [43] b) : ∃ e, t
 example : ∃ b ∈ ([49, 44, 50] : Bytes), Foreign [43] b := ⟨44, by decide, by decide, by decide⟩
 
 /-- **to_i64 is exact, complete and refusing**: it returns `v` exactly for the decimal
-renderings (optional `+` or `-`, digits; bare `"+"` / `"-"` are 0) of the values
-`-(2^63-1) ..= 2^63-1`; everything else — including `i64::MIN` — is an error. -/
+renderings (optional `+` or `-`, digits, leading zeros allowed; bare `"+"` / `"-"` are 0) of
+the values `i64::MIN ..= i64::MAX` = `-2^63 ..= 2^63-1`; everything else is an error.  The
+rendering ties the sign to the value, so `"-9223372036854775808"` is `-2^63` (converts) and
+`"9223372036854775808"` is `2^63` (refused). -/
 theorem C11_i64 (s : Bytes) (v : Int) :
-    toI64 s = .ok v ↔ IsI64Rendering s v ∧ v.natAbs ≤ 2^63 - 1 := by
+    toI64 s = .ok v ↔ IsI64Rendering s v ∧ -2^63 ≤ v ∧ v ≤ 2^63 - 1 := by
   rw [toI64_ok_iff]
   have h0 : (0 : Nat) ≤ U64_MAX := by simp [U64_MAX]
   constructor
-  · rintro ⟨c, data, n, rfl, hn, h | h | h⟩
-    · obtain ⟨hc, h, rfl⟩ := h
+  · rintro ⟨c, data, n, rfl, h | h | h⟩
+    · obtain ⟨hc, h, hn, rfl⟩ := h
       rw [toU64T2_ok_nil _ _ _ (digitVal_le c)] at h
       obtain ⟨hd, hv, -⟩ := h
       refine ⟨⟨c :: data, ?_, Or.inl ⟨rfl, by simp, ?_⟩⟩, ?_⟩
       · simp [allDigits_cons, hc, hd]
       · rw [decVal_cons, hv]
-      · simpa [I64_MAX] using hn
-    · obtain ⟨rfl, h, rfl⟩ := h
+      · simp only [I64_MAX] at hn; omega
+    · obtain ⟨rfl, h, hn, rfl⟩ := h
       rw [toU64T2_ok_nil _ _ _ h0] at h
       obtain ⟨hd, hv, -⟩ := h
       refine ⟨⟨data, hd, Or.inr (Or.inr ⟨rfl, ?_⟩)⟩, ?_⟩
       · rw [hv]; rfl
-      · simpa [I64_MAX] using hn
-    · obtain ⟨rfl, h, rfl⟩ := h
+      · simp only [I64_MIN_ABS] at hn; omega
+    · obtain ⟨rfl, h, hn, rfl⟩ := h
       rw [toU64T2_ok_nil _ _ _ h0] at h
       obtain ⟨hd, hv, -⟩ := h
       refine ⟨⟨data, hd, Or.inr (Or.inl ⟨rfl, ?_⟩)⟩, ?_⟩
       · rw [hv]; rfl
-      · simpa [I64_MAX] using hn
-  · rintro ⟨⟨body, hd, h | h | h⟩, hle⟩
+      · simp only [I64_MAX] at hn; omega
+  · rintro ⟨⟨body, hd, h | h | h⟩, hlo, hhi⟩
     · obtain ⟨rfl, hne, rfl⟩ := h
       cases s with
       | nil => exact absurd rfl hne
       | cons c data =>
         rw [allDigits_cons] at hd
-        have hle' : decVal (c :: data) ≤ I64_MAX := by simpa [I64_MAX] using hle
-        refine ⟨c, data, decVal (c :: data), rfl, hle', Or.inl ⟨hd.1, ?_, rfl⟩⟩
+        have hle' : decVal (c :: data) ≤ I64_MAX := by simp only [I64_MAX]; omega
+        refine ⟨c, data, decVal (c :: data), rfl, Or.inl ⟨hd.1, ?_, hle', rfl⟩⟩
         rw [toU64T2_ok_nil _ _ _ (digitVal_le c)]
         exact ⟨hd.2, decVal_cons c data, by simp only [I64_MAX, U64_MAX] at *; omega⟩
     · obtain ⟨rfl, rfl⟩ := h
-      have hle' : decVal body ≤ I64_MAX := by simpa [I64_MAX] using hle
-      refine ⟨43, body, decVal body, rfl, hle', Or.inr (Or.inr ⟨rfl, ?_, rfl⟩)⟩
+      have hle' : decVal body ≤ I64_MAX := by simp only [I64_MAX]; omega
+      refine ⟨43, body, decVal body, rfl, Or.inr (Or.inr ⟨rfl, ?_, hle', rfl⟩)⟩
       rw [toU64T2_ok_nil _ _ _ h0]
       exact ⟨hd, rfl, by simp only [I64_MAX, U64_MAX] at *; omega⟩
     · obtain ⟨rfl, rfl⟩ := h
-      have hle' : decVal body ≤ I64_MAX := by simpa [I64_MAX] using hle
-      refine ⟨45, body, decVal body, rfl, hle', Or.inr (Or.inl ⟨rfl, ?_, rfl⟩)⟩
+      have hle' : decVal body ≤ I64_MIN_ABS := by simp only [I64_MIN_ABS]; omega
+      refine ⟨45, body, decVal body, rfl, Or.inr (Or.inl ⟨rfl, ?_, hle', rfl⟩)⟩
       rw [toU64T2_ok_nil _ _ _ h0]
-      exact ⟨hd, rfl, by simp only [I64_MAX, U64_MAX] at *; omega⟩
+      exact ⟨hd, rfl, by simp only [I64_MIN_ABS, U64_MAX] at *; omega⟩
 
-example : IsI64Rendering [45, 48, 52, 50] (-42) ∧ (-42 : Int).natAbs ≤ 2^63 - 1 :=
-  ⟨⟨[48, 52, 50], by decide, Or.inr (Or.inr ⟨rfl, by decide⟩)⟩, by decide⟩
+example : IsI64Rendering [45, 48, 52, 50] (-42) ∧ -2^63 ≤ (-42 : Int) ∧ (-42 : Int) ≤ 2^63 - 1 :=
+  ⟨⟨[48, 52, 50], by decide, Or.inr (Or.inr ⟨rfl, by decide⟩)⟩, by decide, by decide⟩
 example : toI64 [45] = .ok 0 := by rfl   -- the quirk: bare "-"
+example : toI64 [45, 48, 48] = .ok 0 := by rfl   -- "-00" is 0
+-- "-9223372036854775808" (i64::MIN) converts, "-09223372036854775808" too
+example : toI64 [45,57,50,50,51,51,55,50,48,51,54,56,53,52,55,55,53,56,48,56] = .ok (-9223372036854775808) := by rfl
+example : toI64 [45,48,57,50,50,51,51,55,50,48,51,54,56,53,52,55,55,53,56,48,56] = .ok (-9223372036854775808) := by rfl
 
-/-- a rendering of a value outside `-(2^63-1) ..= 2^63-1` is refused with `Overflow`. -/
-theorem C11_i64_out_of_range (s : Bytes) (v : Int) (h : IsI64Rendering s v) (hv : v.natAbs > 2^63 - 1) :
+/-- a rendering of a value outside `i64::MIN ..= i64::MAX` is refused with `Overflow`
+(never wrapped, never saturated). -/
+theorem C11_i64_out_of_range (s : Bytes) (v : Int) (h : IsI64Rendering s v)
+    (hv : v < -2^63 ∨ v > 2^63 - 1) :
     toI64 s = .error .overflow := by
   have h0 : (0 : Nat) ≤ U64_MAX := by simp [U64_MAX]
   obtain ⟨body, hd, h | h | h⟩ := h
@@ -166,24 +174,25 @@ theorem C11_i64_out_of_range (s : Bytes) (v : Int) (h : IsI64Rendering s v) (hv 
     | nil => exact absurd rfl hne
     | cons c data =>
       rw [allDigits_cons] at hd
-      have : decFrom data (digitVal c) > I64_MAX := by
-        rw [← decVal_cons]; simp only [I64_MAX]; omega
+      have : decFrom data (digitVal c) > signLimit 1 := by
+        rw [← decVal_cons, signLimit_one]; omega
       simp only [toI64, toI64T, hd.1, if_true]
       exact toI64Go_overflow data 1 _ hd.2 (digitVal_le c) this
   · obtain ⟨rfl, rfl⟩ := h
-    have : decFrom body 0 > I64_MAX := by
-      simp only [I64_MAX]; simp only [decVal] at hv; omega
+    have : decFrom body 0 > signLimit 1 := by
+      rw [signLimit_one]; simp only [decVal] at hv; omega
     simp only [toI64, toI64T, not_isDigit_43, show ((43 : UInt8) == 45) = false by decide,
       beq_self_eq_true, Bool.false_eq_true, if_false, if_true]
     exact toI64Go_overflow body 1 0 hd h0 this
   · obtain ⟨rfl, rfl⟩ := h
-    have : decFrom body 0 > I64_MAX := by
-      simp only [I64_MAX]; simp only [decVal] at hv; omega
+    have : decFrom body 0 > signLimit (-1) := by
+      rw [signLimit_neg_one]; simp only [decVal] at hv; omega
     simp only [toI64, toI64T, not_isDigit_45, beq_self_eq_true, Bool.false_eq_true, if_false, if_true]
     exact toI64Go_overflow body (-1) 0 hd h0 this
 
--- -2^63 = -9223372036854775808 (i64::MIN) is refused
-example : toI64 [45,57,50,50,51,51,55,50,48,51,54,56,53,52,55,55,53,56,48,56] = .error .overflow := by rfl
+-- "-9223372036854775809" and "9223372036854775808" are refused
+example : toI64 [45,57,50,50,51,51,55,50,48,51,54,56,53,52,55,55,53,56,48,57] = .error .overflow := by rfl
+example : toI64 [57,50,50,51,51,55,50,48,51,54,56,53,52,55,55,53,56,48,56] = .error .overflow := by rfl
 
 /-- a string with a byte that is neither a digit nor a sign is refused. -/
 theorem C11_i64_foreign (s : Bytes) (h : ∃ b ∈ s, Foreign [43, 45] b) : ∃ e, toI64 s = .error e := by
@@ -277,17 +286,30 @@ theorem C11_f64_big_integer_refused (neg : Bool) (hd ip : Bytes) (hh : IsF64Head
 -- 2^53 = 9007199254740992 is refused although binary64 holds it: the guard is `> 2^53 - 1`
 example : toF64 [57,48,48,55,49,57,57,50,53,52,55,52,48,57,57,50] = .error .precisionLoss := by rfl
 
+/-- **never NaN or infinity**: the exponent field of every result of `to_f64` is at most
+1088 (|value| < 2^66), so it is never 2047.  For decimals this is the bound on the exponent
+of the two roundings `(i as f64) / 10^k` with `i` a `u64` and `k ≤ 22` (`rneBits_lt`). -/
+theorem C11_f64_finite (s : Bytes) (v : Nat) (h : toF64 s = .ok v) : expField v ≠ 2047 := by
+  obtain ⟨neg, ip, fp, ha, hv⟩ := (toF64_ok_iff s v).1 h
+  subst hv
+  cases fp with
+  | none =>
+    have hle : decVal ip ≤ 2 ^ 53 - 1 := by obtain ⟨hd, -, -, -, hle⟩ := ha; exact hle
+    have := expField_u64ToF64_small (decVal ip) (by omega)
+    simp only [f64Value, intVal]
+    cases neg
+    · simp only [Bool.false_eq_true, if_false]; omega
+    · by_cases h0 : decVal ip = 0
+      · simp only [h0, if_true]; decide
+      · simp only [h0, if_false, if_true]; omega
+  | some f =>
+    obtain ⟨hd, -, -, -, -, hk, hle⟩ := ha
+    have := expField_fracVal neg (decVal (ip ++ f)) f.length hle hk
+    simp only [f64Value]; omega
+
+example : ∃ v, toF64 [46, 53] = .ok v := ⟨_, rfl⟩
+
 /-
-C11_f64_finite, full statement (the fraction case is NOT proved yet, see the partial
-theorem below):
-
-  theorem C11_f64_finite (s : Bytes) (v : Nat) (h : toF64 s = .ok v) : expField v ≠ 2047
-
-Missing: a bound on the exponent field of `rneBits num den` for `num ≤ 2^65`, `1 ≤ den ≤ 10^22`
-(needs `q < 2^53` after normalisation in `rneBits`, i.e. the floor-division bounds on
-`scaleQ`).  The clause is covered for all generated inputs by the correspondence run and
-the harness oracle `f64-nonfinite`.
-
 C11_f64_two_ulp, full statement (NOT proved; growth theorem of DESIGN.md):
 
   theorem C11_f64_two_ulp (s : Bytes) (neg : Bool) (ip f : Bytes)
@@ -297,20 +319,9 @@ C11_f64_two_ulp, full statement (NOT proved; growth theorem of DESIGN.md):
 
 covered by the correspondence run (the model computes the exact two-rounding result) and by
 the harness oracle `f64-beyond-2ulp` against Rust's correctly rounded `str::parse::<f64>`.
+Missing: the relative-error analysis of two successive roundings (needs `rneBits` within
+half an ulp of the exact quotient, then the composition).
 -/
-
-/-- **never NaN or infinity — proved for strings without a decimal point**: the exponent
-field of an accepted integer is at most 1075 (|value| < 2^53), so it is never 2047. -/
-theorem C11_f64_finite_partial (s : Bytes) (v : Nat) (hdot : 46 ∉ s) (h : toF64 s = .ok v) :
-    expField v ≠ 2047 := by
-  obtain ⟨neg, ip, -, hle, hv, -⟩ := C11_f64_integers_exact_or_refused s v hdot h
-  have := expField_u64ToF64_small (decVal ip) (by omega)
-  subst hv
-  cases neg
-  · simp only [Bool.false_eq_true, if_false]; omega
-  · by_cases h0 : decVal ip = 0
-    · simp only [h0, if_true]; decide
-    · simp only [h0, if_false, if_true]; omega
 
 example : toF64 [45, 49, 50] = .ok 0xC028000000000000 := by rfl   -- "-12" = -12.0
 
